@@ -11,6 +11,23 @@ Tie: the driver evaluates the generated definitions at `Float` through the hand-
 model of `_generate_window_strategies` (registry, aliases, defaults) and sends the exact
 binary values; they are compared with the lists the real strategies return.
 
+T2 regenerates ALL the data `exec` consumes: per table row the names / aliases, the `distinct` flag, the parameter list
+its `params_def` text adds (names, exact default values, int or float literal), the formula; per code template the
+body in three modes (size an index / a number without `__index__` / no number) AND its signature (`size` first,
+where `{params_def}` is spliced in); the module-level dictionary links.  The Props file proves, by `decide` over these
+tables, what the property says about them (`table_names`, `signatures`, `template_signatures`, `alpha_default_values`,
+`dict_links_table`, `defaults`, `default_route`, `link_routes`, `function_links`).  The text of the loop
+`_generate_window_strategies` itself is code, hand-modelled (`ALV.C14.genStep`); its AST is pinned (LOOP_AST_SHA1).
+
+Call layer (entry "pycall"): a call as the caller WRITES it — access route (`sd[name]`, `sd.name`, `sd(...)`,
+`sd.default(...)`, `sd.symm[name]`, `sd[name].periodic`, ...), positional / keyword / omitted arguments, the Python
+value of each argument (int, bool, float, Fraction, None, str) — goes through the model of the call layer
+(`ALV.C14.pyCall`: binding against the regenerated signature, the regenerated template for the kind of value `size`
+is, TypeError for a non-numeric alpha exactly when a sample uses it) and, reduced by the DOCUMENTED rules
+(`_spec_call`), through the specification.  Entry "scan": facts about the real float lists for all sizes of a range,
+compared with NO tolerance (range [0,1], length, periodic prefix) or the few-ulp bound of the trigonometric windows
+(symmetry; bit-exact for rect / bartlett / triangular).
+
 Histories (entry "history"): the property fixes `window.X(size)` / `wsymm.X(size)` as a function of
 the arguments of EACH call.  A history is 1..4 calls to the same and to related strategies (aliases,
 `.periodic` / `.symm` links, window vs wsymm, same size / size+1, other spelling of alpha) between
@@ -104,14 +121,29 @@ def tr_formula(node, env):
     raise TranslationError("unsupported syntax %s" % type(node).__name__)
 
 
+class _PyRaises(Exception):
+    """an expression of a template that raises this Python exception whenever it is evaluated (statically known from
+    the KIND of the value `size` stands for: `xrange(4.0)`, `None - 1`)"""
+
+
 class _Tmpl:
-    """Compiler of the tiny statement language of the two code templates into one Lean term
-    of type `List α`, with `f : α → α → α` standing for the `{formula}` hole."""
+    """Compiler of the tiny statement language of the two code templates into one Lean term, with
+    `f : α → α → α` standing for the `{formula}` hole.  Three modes, by the kind of Python value `size` is:
+
+    * "int"    — an object with `__index__` (int, bool): `size : Int`, result `List α` (the mode the theorems about
+                 windows are stated in);
+    * "num"    — a number WITHOUT `__index__` (float, Fraction) of exact value `size : Rat`: `size == 1` is decided on
+                 the value, arithmetic stays a number, `xrange(<number>)` raises TypeError; result `Except String (List α)`;
+    * "opaque" — None / str: `==` is False, `!=` True, arithmetic / ordering / `xrange` raise TypeError; result
+                 `Except String (List α)`."""
 
     HOLE = "FORMULA__HOLE"
+    PARAMS = "PARAMS__DEF"
 
-    def __init__(self):
+    def __init__(self, mode="int"):
         self.count = {}
+        self.mode = mode
+        self.exc = mode != "int"
 
     def fresh(self, name):
         if not re.fullmatch(r"[A-Za-z_][A-Za-z0-9_]*", name):
@@ -123,17 +155,36 @@ class _Tmpl:
             lean = name + "_0"
         return lean
 
-    # --- int / range / bool expressions ---------------------------------------------------
-    def int_expr(self, node, env):
+    # --- arithmetic on int / number / opaque values -------------------------------------------
+    @staticmethod
+    def _rat(kind, term):
+        return term if kind == "num" else "((%s : Int) : Rat)" % term
+
+    def arith(self, node, env):
+        """-> (kind, Lean term); kind "int" (term : Int) or "num" (term : Rat); an operation on an opaque value raises"""
         if isinstance(node, ast.Constant) and isinstance(node.value, int) and not isinstance(node.value, bool):
-            return "(%d : Int)" % node.value
-        if isinstance(node, ast.Name) and env.get(node.id, (None,))[0] == "int":
-            return env[node.id][1]
+            return "int", "(%d : Int)" % node.value
+        if isinstance(node, ast.Name) and env.get(node.id, (None,))[0] in ("int", "num", "opaque"):
+            return env[node.id]
         if isinstance(node, ast.BinOp) and type(node.op) in (ast.Add, ast.Sub, ast.Mult):
-            return "(%s %s %s)" % (self.int_expr(node.left, env), BINOPS[type(node.op)], self.int_expr(node.right, env))
+            (ka, a), (kb, b) = self.arith(node.left, env), self.arith(node.right, env)
+            if "opaque" in (ka, kb):
+                raise _PyRaises("TypeError")
+            if ka == kb == "int":
+                return "int", "(%s %s %s)" % (a, BINOPS[type(node.op)], b)
+            return "num", "(%s %s %s)" % (self._rat(ka, a), BINOPS[type(node.op)], self._rat(kb, b))
         if isinstance(node, ast.UnaryOp) and isinstance(node.op, ast.USub):
-            return "(-%s)" % self.int_expr(node.operand, env)
+            k, a = self.arith(node.operand, env)
+            if k == "opaque":
+                raise _PyRaises("TypeError")
+            return k, "(-%s)" % a
         raise TranslationError("unsupported integer expression %s" % ast.dump(node)[:80])
+
+    def int_expr(self, node, env):
+        k, t = self.arith(node, env)
+        if k != "int":
+            raise _PyRaises("TypeError")          # a float / Fraction / None where an index is needed
+        return t
 
     def range_expr(self, node, env):
         if isinstance(node, ast.Name) and env.get(node.id, (None,))[0] == "range":
@@ -150,8 +201,17 @@ class _Tmpl:
 
     def bool_expr(self, node, env):
         if isinstance(node, ast.Compare) and len(node.ops) == 1 and type(node.ops[0]) in self.CMP:
-            return "(%s %s %s)" % (self.int_expr(node.left, env), self.CMP[type(node.ops[0])],
-                                   self.int_expr(node.comparators[0], env))
+            (ka, a), (kb, b) = self.arith(node.left, env), self.arith(node.comparators[0], env)
+            op = type(node.ops[0])
+            if "opaque" in (ka, kb):
+                if op is ast.Eq:
+                    return "False"
+                if op is ast.NotEq:
+                    return "True"
+                raise _PyRaises("TypeError")
+            if ka == kb == "int":
+                return "(%s %s %s)" % (a, self.CMP[op], b)
+            return "(%s %s %s)" % (self._rat(ka, a), self.CMP[op], self._rat(kb, b))
         if isinstance(node, ast.BoolOp):
             op = " ∧ " if isinstance(node.op, ast.And) else " ∨ "
             return "(" + op.join(self.bool_expr(v, env) for v in node.values) + ")"
@@ -160,16 +220,24 @@ class _Tmpl:
         raise TranslationError("unsupported condition %s" % ast.dump(node)[:80])
 
     # --- list expressions -------------------------------------------------------------------
+    def to_float(self, v):
+        kind, term = v
+        if kind == "int":
+            return "(TrigField.ofInt %s)" % term
+        if kind == "num":
+            return "(TrigField.ofQ %s)" % term
+        raise _PyRaises("TypeError")
+
     def float_env(self, env):
-        return {k: "(TrigField.ofInt %s)" % v[1] for k, v in env.items() if v[0] == "int"}
+        return {k: self.to_float(v) for k, v in env.items() if v[0] in ("int", "num")}
 
     def elt_expr(self, node, env):
         if isinstance(node, ast.Name) and node.id == self.HOLE:
             # the formula's free variables `size` and `n` resolve in the template's scope here
             for v in ("size", "n"):
-                if env.get(v, (None,))[0] != "int":
-                    raise TranslationError("template does not bind integer %r at the formula" % v)
-            return "f (TrigField.ofInt %s) (TrigField.ofInt %s)" % (env["size"][1], env["n"][1])
+                if env.get(v, (None,))[0] not in ("int", "num", "opaque"):
+                    raise TranslationError("template does not bind a number %r at the formula" % v)
+            return "f %s %s" % (self.to_float(env["size"]), self.to_float(env["n"]))
         if any(isinstance(x, ast.Name) and x.id == self.HOLE for x in ast.walk(node)):
             raise TranslationError("formula hole inside a larger expression")
         return tr_formula(node, self.float_env(env))
@@ -194,6 +262,15 @@ class _Tmpl:
         if not stmts:
             raise TranslationError("template path without return")
         s, rest = stmts[0], stmts[1:]
+        try:
+            return self.stmt(s, rest, env, ind)
+        except _PyRaises as e:
+            if not self.exc:
+                raise TranslationError("integer mode of a template raises %s" % e)
+            return '%s.error "%s"' % (pad, e)
+
+    def stmt(self, s, rest, env, ind):
+        pad = "  " * ind
         if isinstance(s, ast.Expr) and isinstance(s.value, ast.Constant) and isinstance(s.value.value, str):
             return self.block(rest, env, ind)
         if isinstance(s, ast.Pass):
@@ -201,7 +278,7 @@ class _Tmpl:
         if isinstance(s, ast.Return):
             if s.value is None:
                 raise TranslationError("return without value")
-            return pad + self.list_expr(s.value, env)
+            return pad + (".ok (%s)" if self.exc else "%s") % self.list_expr(s.value, env)
         if isinstance(s, ast.If):
             if not s.body or not isinstance(s.body[-1], ast.Return):
                 raise TranslationError("if-branch that does not return")
@@ -218,25 +295,26 @@ class _Tmpl:
             else:
                 raise TranslationError("unsupported assignment")
             new, lines = {}, []
-            for tv, val in pairs:            # right-hand sides see the OLD bindings
+            for tv, val in pairs:            # right-hand sides see the OLD bindings, evaluated left to right
                 if not isinstance(tv, ast.Name):
                     raise TranslationError("unsupported assignment target")
                 try:
-                    kind, term = "int", self.int_expr(val, env)
+                    kind, term = self.arith(val, env)
                 except TranslationError:
                     kind, term = "range", self.range_expr(val, env)
                 lean = self.fresh(tv.id)
                 new[tv.id] = (kind, lean)
-                ty = "Int" if kind == "int" else "List Int"
+                ty = {"int": "Int", "num": "Rat", "range": "List Int"}[kind]
                 lines.append("%slet %s : %s := %s" % (pad, lean, ty, term))
             env2 = dict(env)
             env2.update(new)
             return "\n".join(lines) + "\n" + self.block(rest, env2, ind)
         raise TranslationError("unsupported statement %s" % type(s).__name__)
 
-    def compile(self, template):
+    def parse(self, template):
+        """-> (signature items, body statements); an item is ("param", name, default-literal | None) or ("params_def",)"""
         try:
-            code = template.format(sname="F__", params_def="", formula=self.HOLE)
+            code = template.format(sname="F__", params_def=", %s=0" % self.PARAMS, formula=self.HOLE)
             fn = ast.parse(code).body
         except (KeyError, IndexError, SyntaxError, ValueError) as e:
             raise TranslationError("template does not format/parse: %s" % e)
@@ -244,10 +322,55 @@ class _Tmpl:
             raise TranslationError("template is not one function definition")
         fn = fn[0]
         a = fn.args
-        if [x.arg for x in a.args] != ["size"] or a.vararg or a.kwarg or a.kwonlyargs or a.defaults:
-            raise TranslationError("template signature is not (size{params_def})")
+        if a.vararg or a.kwarg or a.kwonlyargs or a.posonlyargs:
+            raise TranslationError("template signature has */**/keyword-only/positional-only parameters")
+        if any(isinstance(x, ast.Name) and x.id == self.PARAMS for x in ast.walk(ast.Module(fn.body, []))):
+            raise TranslationError("{params_def} used outside the signature")
+        names = [x.arg for x in a.args]
+        defaults = [None] * (len(names) - len(a.defaults)) + list(a.defaults)
+        if names.count(self.PARAMS) != 1:
+            raise TranslationError("template signature does not contain {params_def} exactly once")
+        sig = []
+        for nm, d in zip(names, defaults):
+            if nm == self.PARAMS:
+                sig.append(("params_def",))
+            else:
+                sig.append(("param", nm, None if d is None else _lit(d)))
+        return sig, fn.body
+
+    def compile(self, template):
+        sig, body = self.parse(template)
+        names = [x[1] for x in sig if x[0] == "param"]
+        if "size" not in names:
+            raise TranslationError("template has no parameter `size`")
         self.count = {"size": 1}
-        return self.block(fn.body, {"size": ("int", "size")}, 1)
+        return self.block(body, {"size": (self.mode, "size")}, 1)
+
+
+def _lit(node):
+    """numeric literal of a signature default -> (numerator, denominator, is an int literal)"""
+    neg = False
+    if isinstance(node, ast.UnaryOp) and isinstance(node.op, (ast.USub, ast.UAdd)):
+        neg = isinstance(node.op, ast.USub)
+        node = node.operand
+    if not isinstance(node, ast.Constant):
+        raise TranslationError("default %s is not a numeric literal" % ast.dump(node)[:60])
+    v = node.value
+    _num_literal(v)                                  # (same acceptance rule as inside the formulas)
+    q = Fraction(repr(v)) if isinstance(v, float) else Fraction(v)
+    q = -q if neg else q
+    return q.numerator, q.denominator, isinstance(v, int)
+
+
+def _lean_lit(l):
+    return "none" if l is None else "some { num := %d, den := %d, isInt := %s }" % (l[0], l[1], "true" if l[2] else "false")
+
+
+def _lean_param(name, l):
+    return '{ name := "%s", dflt := %s }' % (name, _lean_lit(l))
+
+
+_src = {}
 
 
 def read_source(path=None):
@@ -272,6 +395,15 @@ def read_source(path=None):
                 raise TranslationError("%s._code_template is not a string literal" % t.value.id)
     if table is None or set(templates) != {"window", "wsymm"}:
         raise TranslationError("table or templates not found in " + path)
+    # `window.symm = wsymm.symm = wsymm`, `window.periodic = wsymm.periodic = window` (module level, chained)
+    links = []
+    for node in tree.body:
+        if (isinstance(node, ast.Assign) and isinstance(node.value, ast.Name) and node.value.id in ("window", "wsymm")
+                and all(isinstance(t, ast.Attribute) and isinstance(t.value, ast.Name) and t.value.id in ("window", "wsymm")
+                        and t.attr in ("symm", "periodic") for t in node.targets)):
+            links += [(t.value.id, t.attr, node.value.id) for t in node.targets]
+    _src["links"] = links
+    _src["loop"] = next((n for n in tree.body if isinstance(n, ast.FunctionDef) and n.name == "_generate_window_strategies"), None)
     if not isinstance(table, ast.List):
         raise TranslationError("_content_generation_table is not a list literal")
     entries = []
@@ -307,8 +439,15 @@ def translate(entries, templates):
     w("variable {α : Type} [TrigField α]\n")
     w("/-- `xrange(k)` -/\ndef xrange (k : Int) : List Int := (List.range k.toNat).map Int.ofNat\n")
     w("/-- `xrange(a, b)` -/\ndef xrangeFrom (a b : Int) : List Int := (List.range (b - a).toNat).map (fun i => a + Int.ofNat i)\n")
-    w("/-- one row of `window._content_generation_table`: the names and the `distinct` flag -/\n"
-      "structure Row where\n  names : List String\n  distinct : Bool\n  deriving Repr, DecidableEq\n")
+    w("/-- a numeric literal: exact value `num/den`, and whether it is written as an `int` -/\n"
+      "structure Lit where\n  num : Int\n  den : Nat\n  isInt : Bool\n  deriving Repr, DecidableEq\n")
+    w("/-- a parameter of a generated function: its name and its default (`none` = required) -/\n"
+      "structure Param where\n  name : String\n  dflt : Option Lit\n  deriving Repr, DecidableEq\n")
+    w("/-- the signature of a code template: parameters, and the place where `{params_def}` is spliced in -/\n"
+      "inductive SigItem where\n  | param (p : Param)\n  | paramsDef\n  deriving Repr, DecidableEq\n")
+    w("/-- one row of `window._content_generation_table`: the names, the `distinct` flag and the parameters its\n"
+      "    `params_def` text adds to the signature -/\n"
+      "structure Row where\n  names : List String\n  distinct : Bool\n  params : List Param\n  deriving Repr, DecidableEq\n")
     seen, rows, defaults, forms = set(), [], [], []
     for e in entries:
         names = e.get("names")
@@ -331,14 +470,18 @@ def translate(entries, templates):
             ftree = ast.parse(formula.strip(), mode="eval")
         except SyntaxError as ex:
             raise TranslationError("%s: %s" % (sname, ex))
-        params = [a.arg for a in sig.args][1:]
-        if sig.vararg or sig.kwarg or sig.kwonlyargs or len(sig.defaults) != len(params) or params not in ([], ["alpha"]):
+        pnames = [a.arg for a in sig.args][1:]
+        if sig.vararg or sig.kwarg or sig.kwonlyargs or sig.posonlyargs or len(set(pnames)) != len(pnames) or "size" in pnames:
             raise TranslationError("%s: unsupported parameters %r" % (sname, pdef))
+        pdefaults = [None] * (len(pnames) - len(sig.defaults)) + list(sig.defaults)
+        plist = [(nm, None if d is None else _lit(d)) for nm, d in zip(pnames, pdefaults[len(pdefaults) - len(pnames):])]
+        params = ["alpha"] if "alpha" in pnames else []      # the formula's own extra variable
         env = {"size": "size", "n": "n"}
         default = "none"
         if params:
             env["alpha"] = "alpha"
-            default = "some (%s)" % tr_formula(sig.defaults[0], {})
+            d = dict(zip(pnames, pdefaults[len(pdefaults) - len(pnames):]))["alpha"]
+            default = "none" if d is None else "some (%s)" % tr_formula(d, {})
         body = tr_formula(ftree, env)
         args = "(size n alpha : α)" if params else "(size n : α)"
         w("/-- formula of %s: `%s` -/" % (", ".join(names), formula.strip()))
@@ -347,13 +490,29 @@ def translate(entries, templates):
         forms.append('  | "%s" => some (%s)' % (sname, fn))
         if params:
             defaults.append('  | "%s" => %s' % (sname, default))
-        rows.append('  { names := [%s], distinct := %s }' % (
-            ", ".join('"%s"' % x for x in names), "true" if distinct else "false"))
+        rows.append('  { names := [%s], distinct := %s, params := [%s] }' % (
+            ", ".join('"%s"' % x for x in names), "true" if distinct else "false",
+            ", ".join(_lean_param(nm, l) for nm, l in plist)))
     w("/-- `window._code_template`: %s -/" % " ⏎ ".join(l.strip() for l in templates["window"].strip().splitlines()))
     w("def periodicT (f : α → α → α) (size : Int) : List α :=\n%s\n" % _Tmpl().compile(templates["window"]))
     w("/-- `wsymm._code_template`: %s -/" % " ⏎ ".join(l.strip() for l in templates["wsymm"].strip().splitlines()))
     w("def symmT (f : α → α → α) (size : Int) : List α :=\n%s\n" % _Tmpl().compile(templates["wsymm"]))
-    w("/-- `window._content_generation_table`: names and `distinct` flags, in table order -/")
+    for dn, tn in (("window", "periodic"), ("wsymm", "symm")):
+        w("/-- `%s._code_template` called with a `size` that is a number WITHOUT `__index__` (float, Fraction) of exact\n"
+          "    value `size`: `xrange(size)` raises TypeError, `size == 1` is decided on the value -/" % dn)
+        w("def %sN (f : α → α → α) (size : Rat) : Except String (List α) :=\n%s\n" % (tn, _Tmpl("num").compile(templates[dn])))
+        w("/-- `%s._code_template` called with a `size` that is no number at all (None, str): `==` is False, arithmetic and\n"
+          "    `xrange` raise TypeError -/" % dn)
+        w("def %sO (f : α → α → α) : Except String (List α) :=\n%s\n" % (tn, _Tmpl("opaque").compile(templates[dn])))
+        sig, _body = _Tmpl().parse(templates[dn])
+        w("/-- signature of `%s._code_template` (`def {sname}(...)`) -/" % dn)
+        w("def %sSig : List SigItem := [%s]\n" % (dn, ", ".join(
+            ".paramsDef" if it[0] == "params_def" else ".param " + _lean_param(it[1], it[2]) for it in sig)))
+    w("/-- the module-level attribute assignments `window.symm = wsymm.symm = wsymm` and\n"
+      "    `window.periodic = wsymm.periodic = window`: (object, attribute, value) -/")
+    w("def dictLinks : List (String × String × String) := [%s]\n" % ", ".join(
+        '("%s", "%s", "%s")' % l for l in _src.get("links", [])))
+    w("/-- `window._content_generation_table`: names, `distinct` flags and parameters, in table order -/")
     w("def rows : List Row := [\n%s]\n" % ",\n".join(rows))
     w("/-- default of the extra parameter (`params_def`) of the row whose first name is `sname` -/")
     w("def alphaDefault (sname : String) : Option α :=\n  match sname with\n%s\n" % "\n".join(defaults + ["  | _ => none"]))
@@ -367,7 +526,21 @@ def regenerate(eng=None):
     """Rewrite lean/ALV/Gen/Windows.lean from the repo under test.  On a translation failure the
     previous (compilable) file is left in place and the error propagates (= broken obligation)."""
     path = os.path.join(common.LEAN, GEN_REL)
-    text = translate(*read_source())
+    try:
+        text = translate(*read_source())
+    except Exception:
+        # leave the last COMMITTED translation in place (not whatever an earlier run on another copy of the repo wrote):
+        # the driver and the theorems then speak about the last state of the repo that could be translated
+        try:
+            import subprocess
+            good = subprocess.run(["git", "-C", common.VERIF, "show", "HEAD:lean/" + GEN_REL.replace(os.sep, "/")],
+                                  capture_output=True, text=True, timeout=30)
+            if good.returncode == 0 and good.stdout and (not os.path.exists(path) or open(path).read() != good.stdout):
+                with open(path, "w") as f:
+                    f.write(good.stdout)
+        except Exception:
+            pass
+        raise
     old = open(path).read() if os.path.exists(path) else None
     if old != text:
         os.makedirs(os.path.dirname(path), exist_ok=True)
@@ -388,12 +561,28 @@ RULE = ("every (dictionary, name/alias, size) for sizes 0..96 plus sampled sizes
         "the window(size)/wsymm(size+1) prefix pair, size+-1, other alpha / other spelling of the same alpha, other "
         "strategy) with the caller changing the returned lists in place between the calls (append first sample, scale, "
         "sort, clear, NaN, decrement last, pop, double, nothing): exhaustive over (dictionary, name, size 1/4, mutation) "
-        "for call-mutate-call, the docstring recipe for every strategy, random ones; each call against the model/spec of "
+        "for call-mutate-call, the docstring recipe for every strategy, random ones; plus CALLS AS WRITTEN (pycall): every "
+        "strategy x every call shape ((size), (size, alpha), (size, alpha=), (size=), (size=, alpha=), (alpha=, size=) and 7 "
+        "malformed ones) x 23 alpha spellings (0 / 0.0 / Fraction(0) / False, the defaults as int / float / Fraction / bool, "
+        "the ends of the documented range, negative, 10**6, None, a str) at sizes 1 and 4/5, every strategy name x 17 size "
+        "spellings (0, 1, 2, 3, 8, True, False, 4.0, 1.0, 2.5, Fraction(4), Fraction(1), Fraction(7,2), -1, -5, None, str), "
+        "6 access routes x 3 shapes x 3 sizes, cos with alpha = 0 in 4 spellings x 9 sizes, random mixes; plus SCANS of all "
+        "sizes 0..200 (quick) / 0..3000 (thorough; given alphas to half of that) per strategy and alpha grid with exact "
+        "float comparisons; each call against the model/spec of "
         "that call alone + object identity checks.  Non-trivial: the impl returns a list of at least 2 samples (history: "
         "at least 2 calls, one with 2 samples); distinct = distinct JSON case")
 TRUSTED = [
     "translator T2 (harness/props/c14.py: ast -> lean/ALV/Gen/Windows.lean), cross-checked on every run: the generated "
-    "definitions are evaluated at Float by the driver and compared with the lists the real strategies return",
+    "definitions are evaluated at Float by the driver and compared with the lists the real strategies return; the "
+    "regenerated signatures / dictionary links are compared with inspect.signature / the attributes of the running objects",
+    "model of Python's argument binding for `def f(p1, p2=d)` (ALV.C14.bind) and of the kinds of values (`__index__` only "
+    "for int / bool; None and str support no arithmetic; `==` between a number and 1 by value): modelled, tied by the pycall "
+    "cases; `f(*pos, **kw)` is how every case calls (so `*args` of any length is the positional form)",
+    "a float argument is given to the model by its exact rational value (float size: only `== 1` and the TypeError matter; "
+    "float alpha: p/q with p, q < 2^53 * 2^k converts back to the same double); inf / nan / complex arguments and ints "
+    "beyond float range are not modelled",
+    "the loop `_generate_window_strategies` is hand-modelled; the check pins the sha1 of its AST, an edit there is a broken "
+    "obligation until the model is re-read against it",
     "hand-written Lean model ALV/Model/C14.lean of _generate_window_strategies and of the part of StrategyDict it uses "
     "(modelled, not verified: exec, MultiKeyDict internals, function attributes)",
     "Float instance of TrigField (libm cos/sin/pow through the Lean runtime) is only used on the correspondence side; "
@@ -405,8 +594,17 @@ TRUSTED = [
     "the imported objects in a child of a forked copy of the harness process made before any strategy call",
 ]
 ASSUMPTIONS = [
-    "theorems are over R (Mathlib); float rounding is bounded only by the comparator (1e-12 relative), "
-    "except the periodic-prefix relation, which is syntactic and is checked bit-exactly on the impl",
+    "theorems are over R (Mathlib).  On the impl: model (Float twin) vs impl within 1e-12 (bit-exact in practice, see "
+    "histogram py_float_twin); range [0,1] with NO tolerance (a sample outside by <= 1e-12 is reported under the clause "
+    "range-float-noise(...), by more under range); periodic prefix and wsymm.X(1) == [1.0] bit-exact; symmetry bit-exact "
+    "for rect / bartlett / triangular (`abs(n - size/2.0)` is exact), within 4e-15 for hann / hamming / blackman / cos, "
+    "whose two mirrored arguments of cos/sin are rounded separately (largest difference seen up to size 4096: 7.8e-16), "
+    "scaled by |alpha| and conditioning-aware for cos with 0 < alpha < 1",
+    "the [0,1] clause is read literally on floats: window.blackman(size, alpha)[0] == -2**-54 for some alphas in the "
+    "documented range (not the default) is recorded as a known finding with a proposed fix, not absorbed by a tolerance",
+    "sizes: the property quantifies over integer sizes; what the code does with other values is modelled and tied but not "
+    "specified: float / Fraction / None / str sizes raise TypeError, except that the symmetric template returns [1.0] for "
+    "any number EQUAL to 1 (wsymm.hann(1.0), wsymm.hann(Fraction(1))); bool is an int; sizes <= 0 give []",
     "range [0,1]: blackman for alpha in [-1/4, 1/4], cos for alpha >= 0 (outside, the closed forms really leave [0,1])",
     "a strategy is specified as a function of the arguments of each call: the caller owns the returned list (the "
     "docstring of every periodic window tells it to append the first sample), so a history in which an earlier result "
@@ -414,10 +612,19 @@ ASSUMPTIONS = [
     "wsymm lacks the aliases 'dirichlet'/'rectangular' of the shared rect strategy (DESIGN.md section 8: observation, "
     "not counted as a violation); the tie accepts KeyError or the rect list there and counts it in the histogram",
 ]
-MANIFEST = {"technique": "Lean 4 proofs over definitions regenerated from the repo's formula table and code templates "
-                         "(translator) + Float twin differential correspondence"}
+MANIFEST = {"technique": "Lean 4 proofs over definitions regenerated from the repo's formula table, parameter lists, code "
+                         "templates (body and signature) and dictionary links (translator) + model of the Python call "
+                         "layer + Float twin differential correspondence + exact float scans",
+            "note": "61 theorems: registry / links / defaults / signatures by decide over the regenerated tables; call layer "
+                    "(positional = keyword, omitted = default, bool = int, spelling-independence over R, rejected sizes, "
+                    "alpha=None, malformed shapes); closed forms, prefix, symmetry, range, COLA for all sizes over R; "
+                    "histories.  Known finding: blackman end sample -2**-54 for some alphas."}
 
+LOOP_AST_SHA1 = "93fecf35eb15520121969fb0560df4c61667d224"      # ast.dump of the body of _generate_window_strategies
 TOL = Fraction(1, 10 ** 12)
+# symmetry of the trigonometric windows on floats: cos(2 pi n / N) against cos(2 pi (N - n) / N) — the two arguments are
+# rounded separately, the samples differ by a few units in the last place (largest seen for sizes up to 4096: 7.8e-16)
+SYM_TOL = Fraction(4, 10 ** 15)
 ALPHA_KINDS = ("blackman", "cos")
 ROUTES = ("item", "attr", "dictlink", "funclink")
 _last = {}
@@ -497,7 +704,7 @@ def generate(rng, tier, scale=1):
                 cases.append(_mk(dict_, name, 4))                      # KeyError
             for size in (-1, -7):
                 cases.append(_mk(dict_, "hamming", size))              # xrange(negative): empty list
-    return cases + _gen_histories(rng, tier, scale)
+    return cases + _gen_pycalls(rng, tier, scale) + _gen_scans(rng, tier, scale) + _gen_histories(rng, tier, scale)
 
 
 # ---------------------------------------------------------------------------------------------
@@ -941,6 +1148,10 @@ def impl(c):
         return _impl_docmath(c)
     if c["entry"] == "history":
         return _impl_history(c)
+    if c["entry"] == "pycall":
+        return _impl_pycall(c)
+    if c["entry"] == "scan":
+        return _impl_scan(c)
     if c["entry"] != "call":
         return {"err": "OTHER:entry"}
     return _call_obs(c)[0]
@@ -1216,7 +1427,370 @@ def _impl_history(c):
     return json.loads(line.decode())
 
 
+
+# ---------------------------------------------------------------------------------------------
+# the call layer: calls as a caller WRITES them (entry "pycall"), float facts over many sizes (entry "scan")
+# ---------------------------------------------------------------------------------------------
+def V(x):
+    """Python argument value -> tagged JSON (the spelling is part of the case)"""
+    if x is None:
+        return {"t": "none"}
+    if isinstance(x, bool):
+        return {"t": "bool", "v": x}
+    if isinstance(x, int):
+        return {"t": "int", "v": x}
+    if isinstance(x, float):
+        return {"t": "float", "v": enc(x)}
+    if isinstance(x, Fraction):
+        return {"t": "frac", "v": enc(x)}
+    if isinstance(x, str):
+        return {"t": "str"}
+    raise TypeError(x)
+
+
+def _pyval(v):
+    t = v["t"]
+    if t == "none":
+        return None
+    if t == "str":
+        return "x"
+    if t == "bool":
+        return bool(v["v"])
+    if t == "int":
+        return int(v["v"])
+    q = dec(v["v"])
+    return float(q) if t == "float" else Fraction(q)
+
+
+SIZE_SPELLINGS = [0, 1, 2, 3, 8, True, False, 4.0, 1.0, 2.5, Fraction(4), Fraction(1), Fraction(7, 2), -1, -5, None, "x"]
+# boundary alphas: zero in every spelling, the documented defaults in every spelling, the ends of the documented
+# range, negative, large, None, a str
+ALPHA_SPELLINGS = [0, 0.0, Fraction(0), False, True, 1, 1.0, Fraction(1), 0.16, Fraction(4, 25), 0.25, -0.25,
+                   Fraction(1, 4), 2, 0.5, -1, -0.5, 10 ** 6, 1e6, None, "x", -0.17, 3]
+# shapes: which arguments are positional / keyword (in this order), extra ones
+SHAPES = {"(size)": (["size"], []), "(size, alpha)": (["size", "alpha"], []), "(size, alpha=)": (["size"], ["alpha"]),
+          "(size=)": ([], ["size"]), "(size=, alpha=)": ([], ["size", "alpha"]), "(alpha=, size=)": ([], ["alpha", "size"]),
+          "()": ([], []), "(alpha=)": ([], ["alpha"]), "(size, alpha, extra)": (["size", "alpha", "extra"], []),
+          "(size, extra)": (["size", "extra"], []),
+          "(size, alpha, alpha=)": (["size", "alpha"], ["alpha"]), "(size, beta=)": (["size"], ["beta"]),
+          "(size, size=)": (["size"], ["size"])}
+GOOD_SHAPES = ("(size)", "(size, alpha)", "(size, alpha=)", "(size=)", "(size=, alpha=)", "(alpha=, size=)")
+PYROUTES = ("item", "dflt", "dictlink:symm", "dictlink:periodic", "funclink:symm", "funclink:periodic")
+
+
+def _pc(dict_, name, shape, size, alpha=None, route="item", access=0):
+    pos_n, kw_n = SHAPES[shape]
+    val = {"size": V(size), "alpha": V(alpha), "extra": V(7), "beta": V(2)}
+    return {"entry": "pycall", "dict": dict_, "name": None if route == "dflt" else name, "route": route, "shape": shape,
+            "pos": [val[k] for k in pos_n], "kw": [[k, val[k]] for k in kw_n], "access": access}
+
+
+def _gen_pycalls(rng, tier, scale):
+    out = []
+    quick = tier == "quick"
+    kinds = _names()
+    if scale == 1:
+        for dict_ in ("window", "wsymm"):
+            for kind, names in kinds:
+                # every call shape with an alpha x every boundary alpha x every strategy (sizes: one sample / several)
+                for shape in ("(size, alpha)", "(size, alpha=)", "(size=, alpha=)", "(alpha=, size=)"):
+                    for a in ALPHA_SPELLINGS:
+                        for size in (1, 4) if shape != "(alpha=, size=)" else (5,):
+                            out.append(_pc(dict_, kind, shape, size, a))
+                # every spelling of the size, alpha omitted (-> default) / given
+                for name in names:
+                    if dict_ == "wsymm" and name != _wsymm_name(name):
+                        continue
+                    for size in SIZE_SPELLINGS:
+                        out.append(_pc(dict_, name, "(size)" if name == names[0] else "(size=)", size, access=len(name) % 2))
+                for size in SIZE_SPELLINGS:
+                    out.append(_pc(dict_, kind, "(size=)", size))
+                    if kind in ALPHA_KINDS:
+                        out.append(_pc(dict_, kind, "(size, alpha)", size, 0))
+                        out.append(_pc(dict_, kind, "(size, alpha=)", size, None))
+                # malformed shapes
+                for shape in SHAPES:
+                    if shape not in GOOD_SHAPES:
+                        out.append(_pc(dict_, kind, shape, 3, 1))
+                # routes (the default route ignores the name)
+                for route in PYROUTES:
+                    for shape, a in (("(size)", None), ("(size, alpha)", 0), ("(size, alpha=)", 2)):
+                        for size in (1, 2, 5):
+                            out.append(_pc(dict_, names[-1] if route.startswith("funclink") and dict_ == "window" else kind,
+                                           shape, size, a, route, access=size % 2))
+            # cos with alpha = 0 is the rectangular window — also the end samples of the symmetric one
+            for size in (0, 1, 2, 3, 4, 7, 16, 33, 100):
+                for a in (0, 0.0, Fraction(0), False):
+                    out.append(_pc(dict_, "cos", "(size, alpha)" if size % 2 else "(size, alpha=)", size, a))
+    n = (400 if quick else 4000) * scale
+    for _ in range(n):
+        dict_ = rng.choice(("window", "wsymm"))
+        kind, names = rng.choice(kinds)
+        name = rng.choice(names)
+        if dict_ == "wsymm" and rng.random() < 0.9:
+            name = _wsymm_name(name)
+        shape = rng.choice(GOOD_SHAPES * 3 + tuple(SHAPES))
+        size = rng.choice(SIZE_SPELLINGS + [rng.randint(0, 40), rng.randint(0, 40), 4 * rng.randint(1, 16), rng.randint(41, 300)])
+        if kind == "blackman":
+            extra = [rng.randint(-25, 25) / 100.0, Fraction(rng.randint(-25, 25), 100), rng.randint(-250, 250) / 1000.0]
+        else:
+            extra = [rng.randint(0, 400) / 100.0, Fraction(rng.randint(0, 40), 8), rng.randint(0, 9)]
+        a = rng.choice(ALPHA_SPELLINGS + extra * 4)
+        route = rng.choice(("item",) * 4 + PYROUTES)
+        out.append(_pc(dict_, name, shape, size, a, route, access=rng.randint(0, 1)))
+    return out
+
+
+def _gen_scans(rng, tier, scale):
+    """float facts of the real lists over ALL sizes lo..hi: range [0,1] with no tolerance, symmetry, prefix, length"""
+    if scale != 1:
+        return []
+    quick = tier == "quick"
+    top = 200 if quick else 3000
+    out = []
+    for dict_ in ("window", "wsymm"):
+        for kind, _n in _names():
+            alphas = [None]
+            if kind == "blackman":
+                alphas += [0.25, -0.25, 0, 0.2, -0.1] + ([] if quick else [2.0 * 1430 / 18608, 0.1, -0.2, 0.05])
+                alphas += [rng.randint(-25, 25) / 100.0 for _ in range(1 if quick else 4)]
+            if kind == "cos":
+                alphas += [0, 2, 0.5] + ([] if quick else [3, 1.5, 0.25, 7, 100])
+                alphas += [rng.randint(0, 400) / 100.0 for _ in range(1 if quick else 3)]
+            for a in alphas:
+                hi = top if a is None else (top // 2)
+                step = 100 if quick else 250
+                for lo in range(0, hi, step):
+                    out.append({"entry": "scan", "dict": dict_, "name": kind, "lo": lo, "hi": min(lo + step, hi + 1),
+                                "alpha": None if a is None else enc(a), "alpha_int": isinstance(a, int)})
+    return out
+
+
+def _spec_call(c):
+    """The call reduced, with the DOCUMENTED rules only, to the terms of the property: (symmetric?, kind, size, alpha);
+    None when the call is outside the property (malformed shape, a size that is no integer >= 0, alpha that is no
+    number, an alias wsymm lacks)."""
+    route = c["route"]
+    if route == "dflt":
+        kind, final, look = "hann", c["dict"], None
+    else:
+        kind = _kind_of(c["name"])
+        final = {"item": c["dict"], "dictlink:symm": "wsymm", "dictlink:periodic": "window", "funclink:symm": "wsymm",
+                 "funclink:periodic": "window"}[route]
+        look = final if route.startswith("dictlink") else c["dict"]       # the dictionary the NAME is looked up in
+    if kind is None or (look == "wsymm" and c["name"] in ("dirichlet", "rectangular")):
+        return None
+    params = ["size"] + (["alpha"] if kind in ALPHA_KINDS else [])       # documented signature X(size[, alpha])
+    if len(c["pos"]) > len(params):
+        return None
+    bound = dict(zip(params, c["pos"]))
+    for k, v in c["kw"]:
+        if k not in params or k in bound:
+            return None
+        bound[k] = v
+    if "size" not in bound or bound["size"]["t"] not in ("int", "bool"):
+        return None
+    size = int(bound["size"]["v"])
+    if size < 0:
+        return None
+    alpha = None
+    if "alpha" in bound:
+        if bound["alpha"]["t"] in ("none", "str"):
+            return None
+        alpha = _pyval(bound["alpha"])
+    return {"symm": final == "wsymm", "kind": kind, "size": size,
+            "alpha": None if alpha is None else enc(float(alpha)), "alpha_raw": bound.get("alpha")}
+
+
+def _py_lookup(c):
+    from audiolazy import window, wsymm
+    sd = window if c["dict"] == "window" else wsymm
+    route, name, acc = c["route"], c["name"], c.get("access", 0)
+    if route == "dflt":
+        return sd if acc == 0 else sd.default
+    if route.startswith("dictlink"):
+        sd = getattr(sd, route.split(":")[1])
+        return sd[name]
+    if acc == 0 or not name:
+        f = sd[name]
+    else:
+        try:
+            f = getattr(sd, name)
+        except AttributeError:              # `sd.name` for a name the dictionary lacks: the same "no such strategy"
+            raise KeyError(name)
+    if route.startswith("funclink"):
+        return getattr(f, route.split(":")[1])
+    return f
+
+
+def _samples_obs(out):
+    """a returned object -> observation"""
+    if isinstance(out, list):
+        cx = [i for i, x in enumerate(out) if type(x) is complex]
+        if cx:
+            return {"err": "ComplexSample", "index": cx[0], "value": repr(out[cx[0]]), "len": len(out)}
+        nf = [i for i, x in enumerate(out) if type(x) is float and (x != x or x in (float("inf"), float("-inf")))]
+        if nf:
+            return {"err": "NonFiniteSample", "index": nf[0], "value": repr(out[nf[0]]), "len": len(out)}
+    if not isinstance(out, list) or not all(type(x) is float for x in out):
+        return {"err": "OTHER:not-a-list-of-floats", "repr": repr(out)[:200]}
+    return {"out": [enc(x) for x in out]}
+
+
+def _impl_pycall(c):
+    try:
+        f = _py_lookup(c)
+        pos = [_pyval(v) for v in c["pos"]]
+        kw = {k: _pyval(v) for k, v in c["kw"]}
+        if len(kw) != len(c["kw"]):
+            return {"err": "OTHER:duplicate-keyword-in-case"}
+        out = f(*pos, **kw)
+    except Exception as e:
+        return {"err": err_kind(e)}
+    obs = _samples_obs(out)
+    sc = _spec_call(c)
+    if "out" in obs and sc is not None and not sc["symm"] and sc["kind"] is not None and c["route"] != "dflt":
+        # "equals the first size samples of wsymm.X(size+1) exactly": the same call shape on X.symm with size + 1
+        try:
+            bump = lambda v: v + 1 if type(v) is int else int(v) + 1
+            pos2 = [bump(x) if i == 0 and SHAPES[c["shape"]][0][:1] == ["size"] else x for i, x in enumerate(pos)]
+            kw2 = {k: (bump(x) if k == "size" else x) for k, x in kw.items()}
+            longer = f.symm(*pos2, **kw2)
+            obs["prefix_exact"] = bool(len(longer) == sc["size"] + 1 and longer[:sc["size"]] == out)
+        except Exception as e:
+            obs["prefix_exact"] = "err:" + err_kind(e)
+    return obs
+
+
+def _impl_scan(c):
+    """facts about the real lists for every size lo <= size < hi (no tolerance anywhere)"""
+    from audiolazy import window, wsymm
+    sd = window if c["dict"] == "window" else wsymm
+    a = _alpha_of(c)
+    args = () if a is None else (a,)
+    f = sd[c["name"]]
+    symm = c["dict"] == "wsymm" or c["name"] == "rect"
+    r = {"sizes": 0, "samples": 0, "below0": [], "above1": [], "nbelow0": 0, "nabove1": 0, "badlen": [], "notfloat": [],
+         "asym_sizes": 0, "asym_max": 0.0, "asym_worst": None, "prefix_bad": [], "size1_bad": None}
+    try:
+        for size in range(c["lo"], c["hi"]):
+            w = f(size, *args)
+            r["sizes"] += 1
+            r["samples"] += len(w)
+            if len(w) != size:
+                r["badlen"].append([size, len(w)])
+            if not all(type(x) is float for x in w):
+                r["notfloat"].append(size)
+                continue
+            for i, x in enumerate(w):
+                if not x >= 0.0:
+                    r["nbelow0"] += 1
+                    if len(r["below0"]) < 4:
+                        r["below0"].append([size, i, enc(x)])
+                if not x <= 1.0:
+                    r["nabove1"] += 1
+                    if len(r["above1"]) < 4:
+                        r["above1"].append([size, i, enc(x)])
+            if symm:
+                worst = 0.0
+                for i in range(size // 2):
+                    d = abs(w[i] - w[size - 1 - i])
+                    if d > worst:
+                        worst = d
+                        if d > r["asym_max"]:
+                            r["asym_max"], r["asym_worst"] = d, [size, i, enc(w[i]), enc(w[size - 1 - i])]
+                if worst > 0:
+                    r["asym_sizes"] += 1
+                if size == 1 and c["dict"] == "wsymm" and w != [1.0]:
+                    r["size1_bad"] = [enc(x) for x in w]
+            else:
+                longer = f.symm(size + 1, *args)
+                if not (len(longer) == size + 1 and longer[:size] == w):
+                    r["prefix_bad"].append(size)
+    except Exception as e:
+        r["err"] = err_kind(e)
+        r["err_size"] = r["sizes"] + c["lo"]
+    r["asym_max"] = enc(r["asym_max"])
+    return r
+
+
+NOISE = Fraction(1, 10 ** 12)
+
+
+def _range_clause(size, i, x):
+    """a sample outside [0,1]: by float noise at an end sample / elsewhere, or by more"""
+    over = -x if x < 0 else x - 1
+    side = "<0" if x < 0 else ">1"
+    if over > NOISE:
+        return "range"
+    return "range-float-noise(%s%s)" % ("end-sample" if i in (0, size - 1) else "inner-sample", side)
+
+
+def _scan_problems(c, io, drv):
+    out = []
+    kind = c["name"]
+    a = _alpha_of(c)
+    alpha = Fraction(a) if a is not None else (Fraction(ALPHA_DEFAULT[kind]) if kind in ALPHA_KINDS else None)
+    who = "%s.%s(size%s)" % (c["dict"], kind, "" if a is None else ", %r" % a)
+    if "err" in io:
+        return [("spec", "raises-" + io["err"], "%s raised %s at size %d" % (who, io["err"], io.get("err_size", -1)))]
+    for size, n in io["badlen"][:1]:
+        out.append(("spec", "length", "%s: %d samples for size %d" % (who, n, size)))
+    for size in io["notfloat"][:1]:
+        out.append(("spec", "complex-sample", "%s: a sample of size %d is not a float" % (who, size)))
+    if _range_claimed(kind, alpha):
+        for size, i, x in (io["below0"] + io["above1"])[:1]:
+            x = dec(x)
+            out.append(("spec", _range_clause(size, i, x), "%s[%d] = %r at size %d is outside [0,1] (%d samples below 0, %d above 1 "
+                        "for sizes %d..%d)" % (who, i, float(x), size, io["nbelow0"], io["nabove1"], c["lo"], c["hi"] - 1)))
+    if io["asym_worst"] is not None and dec(io["asym_max"]) > _sym_tol(kind, alpha):
+        size, i, x, y = io["asym_worst"]
+        out.append(("spec", "symmetry", "%s at size %d: sample %d = %r but sample %d = %r" % (
+            who, size, i, float(dec(x)), size - 1 - i, float(dec(y)))))
+    if io["prefix_bad"]:
+        size = io["prefix_bad"][0]
+        out.append(("spec", "periodic-prefix", "window.%s(%d) is not exactly the first %d samples of wsymm.%s(%d)" % (
+            kind, size, size, kind, size + 1)))
+    if io["size1_bad"] is not None:
+        out.append(("spec", "size1", "wsymm.%s(1) = %r, not [1.0]" % (kind, io["size1_bad"])))
+    return out
+
+
+def _pycall_as_call(c, sc):
+    """the pseudo "call" case the value clauses are stated on"""
+    cc = {"entry": "call", "dict": "wsymm" if sc["symm"] else "window", "name": sc["kind"], "size": sc["size"], "alpha": None,
+          "route": "item"}
+    if sc["alpha"] is not None:
+        cc["alpha"] = sc["alpha"]
+        cc["alpha_int"] = False
+    return cc
+
+
+def _pycall_text(c):
+    sd = c["dict"]
+    acc = c.get("access", 0)
+    r = c["route"]
+    if r == "dflt":
+        head = sd if acc == 0 else sd + ".default"
+    elif r.startswith("dictlink"):
+        head = "%s.%s[%r]" % (sd, r.split(":")[1], c["name"])
+    else:
+        head = "%s[%r]" % (sd, c["name"]) if acc == 0 else "%s.%s" % (sd, c["name"])
+        if r.startswith("funclink"):
+            head += "." + r.split(":")[1]
+    args = [repr(_pyval(v)) for v in c["pos"]] + ["%s=%r" % (k, _pyval(v)) for k, v in c["kw"]]
+    return "%s(%s)" % (head, ", ".join(args))
+
+
 def request(c):
+    if c["entry"] == "pycall":
+        sc = _spec_call(c)
+        r = {"entry": "pycall", "dict": c["dict"], "name": c["name"], "route": c["route"], "pos": c["pos"], "kw": c["kw"]}
+        if sc is not None:
+            r["spec_call"] = {k: sc[k] for k in ("symm", "kind", "size", "alpha")}
+        return r
+    if c["entry"] == "scan":
+        return {"entry": "tables"}
     if c["entry"] == "history":
         return {"entry": "history", "calls": [request(dict(s, entry="call")) for s in c["steps"]]}
     return {"entry": "call", "dict": c["dict"], "name": c["name"], "size": c["size"], "alpha": c.get("alpha")}
@@ -1239,10 +1813,23 @@ def _sym_tol(kind, alpha):
     rounding of `n/size` moves a sample by ~1e-16.  `sin(x) ** alpha` with 0 < alpha < 1 is not Lipschitz at the
     zero end points: a perturbation d of sin(x) (math.sin(math.pi) = 1.2e-16, not 0) moves the sample by up to
     d ** alpha (concavity), e.g. wsymm.cos(2, .5) = [0.0, 1.1e-08].  That is float conditioning, not asymmetry."""
+    if kind in ("rect", "bartlett", "triangular"):
+        return 0          # `abs(n - size / 2.0)` is exact in binary floating point: these lists are palindromes bit for bit
+    if kind == "cos" and alpha is not None and 0 < alpha < 1:
+        return max(SYM_TOL, Fraction(2e-15 ** float(alpha)))
+    if kind == "cos" and alpha is not None and alpha > 1:
+        return SYM_TOL * max(1, int(alpha))
+    if kind == "blackman" and alpha is not None and abs(alpha) > 1:
+        return SYM_TOL * (int(abs(alpha)) + 1)
+    return SYM_TOL
+
+
+def _cf_tol(kind, alpha):
+    """tolerance of impl sample against the Float evaluation of the documented closed form (another term: rounding differs)"""
     if kind == "cos" and alpha is not None and 0 < alpha < 1:
         return max(TOL, Fraction(2e-15 ** float(alpha)))
-    if kind == "cos" and alpha is not None and alpha > 1:
-        return TOL * max(1, int(alpha))
+    if alpha is not None and abs(alpha) > 1:
+        return TOL * (int(abs(alpha)) + 1)
     return TOL
 
 
@@ -1309,6 +1896,13 @@ def _problems(c, io, drv):
     """-> list of (kind, clause, detail)"""
     if c["entry"] == "history":
         return _history_problems(c, io, drv)
+    if c["entry"] == "scan":
+        return _scan_problems(c, io, drv)
+    if c["entry"] == "pycall":
+        sc = _spec_call(c)
+        cc = _pycall_as_call(c, sc) if sc is not None else dict(c, entry="call", size=-1)
+        text = _pycall_text(c)
+        return [(k, clause, "%s: %s" % (text, d)) for k, clause, d in _problems(dict(cc, _frac_alpha=_has_frac(c)), io, drv)]
     out = []
     model, spec = drv["model"], drv.get("spec")
     vals = None
@@ -1330,8 +1924,9 @@ def _problems(c, io, drv):
     if "err" in io:
         # model "NaN" = IEEE invalid operation in the Float twin: Python raises ZeroDivisionError (0.0/0.0)
         # or yields a complex number (negative ** non-integer) there
-        same = model.get("err") == io["err"] or (model.get("err") == "NaN" and
-                                                   io["err"] in ("ZeroDivisionError", "ComplexSample"))
+        same = (model.get("err") == io["err"] or
+                (model.get("err") == "NaN" and io["err"] in ("ZeroDivisionError", "ComplexSample", "NonFiniteSample")) or
+                (model.get("err") == "ZeroDivisionError" and io["err"] in ("NonFiniteSample", "OverflowError")))
         if not same:
             out.append(("model", "error", "impl raised %s, model %s" % (io["err"], _brief(model))))
     else:
@@ -1370,7 +1965,7 @@ def _problems(c, io, drv):
     if c["dict"] == "wsymm" and size == 1 and vals != [1]:
         out.append(("spec", "size1", "wsymm.%s(1) = %r, not [1.0]" % (c["name"], [float(v) for v in vals])))
     if len(vals) == len(sv):
-        ct = _sym_tol(kind, alpha)      # conditioning-aware only for cos with 0 < alpha < 1, else TOL
+        ct = _cf_tol(kind, alpha)      # conditioning-aware only for cos with 0 < alpha < 1, else TOL
         # a NaN sample of the spec's Float evaluation (sin(~pi) slightly negative, non-integer alpha) is skipped
         bad = [i for i, (a, b) in enumerate(zip(vals, sv)) if not (isinstance(b, float) and b != b)
                and not common.close(a, b, ct)]
@@ -1379,9 +1974,12 @@ def _problems(c, io, drv):
             out.append(("spec", "closed-form", "sample %d of %s.%s(%d): impl %r, closed form %r (%d samples differ)" % (
                 i, c["dict"], c["name"], size, float(vals[i]), float(sv[i]), len(bad))))
     if _range_claimed(kind, alpha):
-        bad = [i for i, v in enumerate(vals) if v < -TOL or v > 1 + TOL]
+        # no tolerance: the theorems (window_range / wsymm_range / call_range) say [0,1]; what the floats do beyond
+        # that is reported under its own clause (noise of at most 1e-12 at an end / inner sample, or more)
+        bad = [i for i, v in enumerate(vals) if v < 0 or v > 1]
         if bad:
-            out.append(("spec", "range", "sample %d = %r outside [0,1]" % (bad[0], float(vals[bad[0]]))))
+            out.append(("spec", _range_clause(len(vals), bad[0], vals[bad[0]]),
+                        "sample %d = %r outside [0,1]" % (bad[0], float(vals[bad[0]]))))
     if symm or kind == "rect":
         n = len(vals)
         st = _sym_tol(kind, alpha)
@@ -1404,6 +2002,10 @@ def _problems(c, io, drv):
     return out
 
 
+def _has_frac(c):
+    return any(v["t"] == "frac" for v in c["pos"]) or any(v["t"] == "frac" for _k, v in c["kw"])
+
+
 def _brief(x):
     s = str(x)
     return s if len(s) < 120 else s[:120] + "..."
@@ -1418,6 +2020,10 @@ def nontrivial(c, io):
     if c["entry"] == "history":
         so = io.get("steps") or []
         return len(so) >= 2 and any(len(o.get("out", ())) >= 2 for o in so)
+    if c["entry"] == "scan":
+        return io.get("samples", 0) >= 2
+    if c["entry"] == "pycall":
+        return len(io.get("out", ())) >= 2 or "err" in io      # a modelled rejection is an observation too
     return len(io.get("out", ())) >= 2 or (isinstance(io.get("doc"), list) and len(io["doc"]) >= 2)
 
 
@@ -1498,6 +2104,49 @@ def tally(eng, c, io):
         d = io.get("doc")
         eng.count("docmath", "evaluated" if isinstance(d, list) else str(d))
         return
+    if c["entry"] == "scan":
+        eng.count("scan_strategy", "%s.%s" % (c["dict"], c["name"]))
+        eng.count("scan_alpha", "default" if c.get("alpha") is None else "given")
+        eng.count("scan_totals", "sizes", io.get("sizes", 0))
+        eng.count("scan_totals", "samples", io.get("samples", 0))
+        eng.count("scan_totals", "samples outside [0,1] (exact comparison)", io.get("nbelow0", 0) + io.get("nabove1", 0))
+        eng.count("scan_largest_size", c["hi"] - 1)
+        if c["dict"] == "wsymm" or c["name"] == "rect":
+            m = dec(io["asym_max"]) if "asym_max" in io else 0
+            eng.count("scan_float_symmetry(%s)" % c["name"], "bit-exact for every size" if m == 0 else
+                      "largest |w[i]-w[size-1-i]| <= 1e-15" if m <= Fraction(1, 10 ** 15) else "larger")
+            eng.count("scan_totals", "sizes of %s whose list is not a palindrome bit for bit" % c["name"], io.get("asym_sizes", 0))
+        return
+    if c["entry"] == "pycall":
+        sc = _spec_call(c)
+        eng.count("py_shape", c["shape"])
+        eng.count("py_route", c["route"] + (":attr" if c.get("access") else ""))
+        eng.count("py_in_property", "yes" if sc is not None else "no (malformed / size or alpha no number / alias gap)")
+        vals = dict(zip(SHAPES[c["shape"]][0], c["pos"]))
+        vals.update({k: v for k, v in c["kw"]})
+        sv, av = vals.get("size"), vals.get("alpha")
+        if sv is not None:
+            x = _pyval(sv)
+            eng.count("py_size_spelling", sv["t"] + ("" if sv["t"] in ("none", "str") else ":<0" if x < 0 else ":0" if x == 0 else
+                                                    ":1" if x == 1 else ":non-integer" if x != int(x) else ":>1"))
+        kind = _kind_of(c["name"]) if c["route"] != "dflt" else "hann"
+        if av is None:
+            eng.count("py_alpha", "omitted")
+        else:
+            x = _pyval(av)
+            cls = ("" if av["t"] in ("none", "str") else ":zero" if x == 0 else ":default" if kind in ALPHA_KINDS and
+                   x == Fraction(ALPHA_DEFAULT[kind]) or (kind == "blackman" and x in (0.16, Fraction(4, 25))) else
+                   ":negative" if x < 0 else ":large" if x >= 1000 else ":other")
+            eng.count("py_alpha", av["t"] + cls + (" kw" if any(k == "alpha" for k, _v in c["kw"]) else " pos"))
+        eng.count("py_strategy_x_shape", "%s %s" % (kind, c["shape"]))
+        eng.count("py_outcome", io.get("err", "list"))
+        if "bitexact" in _last:
+            eng.count("py_float_twin", "bit-exact" if _last["bitexact"] else "within-tolerance")
+        if "prefix_exact" in io:
+            eng.count("prefix_exact_checked", str(io["prefix_exact"]))
+        if "out" in io and kind == "cos" and av is not None and av["t"] not in ("none", "str") and _pyval(av) == 0:
+            eng.count("cos_alpha_zero_is_rect", "all ones" if all(dec(x) == 1 for x in io["out"]) else "NOT all ones")
+        return
     eng.count("dict", c["dict"])
     eng.count("name", c["name"] if c["name"] is not None else "<default>")
     eng.count("route", c.get("route", "item"))
@@ -1518,8 +2167,8 @@ def tally(eng, c, io):
 
 
 def key(c):
-    if c["entry"] == "history":
-        return "history|" + json.dumps(c, sort_keys=True)
+    if c["entry"] in ("history", "pycall", "scan"):
+        return c["entry"] + "|" + json.dumps(c, sort_keys=True)
     return "%s|%s|%s|%s|%s|%s|%s" % (c["entry"], c["dict"], c["name"], c["size"], c.get("alpha"), c.get("alpha_int"), c.get("route"))
 
 
@@ -1585,10 +2234,47 @@ def _shrink_history(c):
                 yield mk(steps[:i] + [dict(steps[i], size=t)] + steps[i + 1:])
 
 
+def _scan_witness_sizes(c):
+    """sizes worth trying alone when a scan fails"""
+    return sorted(set(range(c["lo"], min(c["hi"], c["lo"] + 12))) | {c["lo"] + (c["hi"] - c["lo"]) // 2})
+
+
 def shrink(c):
     if c["entry"] == "history":
         for d in _shrink_history(c):
             yield d
+        return
+    if c["entry"] == "scan":
+        # one call is a smaller witness than a range of sizes
+        for size in _scan_witness_sizes(c):
+            d = _mk(c["dict"], c["name"], size)
+            if c.get("alpha") is not None:
+                d.update(alpha=c["alpha"], alpha_int=c.get("alpha_int", False), alpha_kw=False)
+            yield d
+        if c["hi"] - c["lo"] > 1:
+            mid = (c["lo"] + c["hi"]) // 2
+            yield dict(c, hi=mid)
+            yield dict(c, lo=mid)
+        return
+    if c["entry"] == "pycall":
+        sc = _spec_call(c)
+        if sc is not None:                               # the same call in the plain spelling
+            d = _mk("wsymm" if sc["symm"] else "window", sc["kind"], sc["size"])
+            if sc["alpha"] is not None:
+                d.update(alpha=sc["alpha"], alpha_int=False, alpha_kw=False)
+            yield d
+        if c["route"] not in ("item", "dflt"):
+            yield dict(c, route="item")
+        if c.get("access"):
+            yield dict(c, access=0)
+        for i, v in enumerate(c["pos"]):
+            if v["t"] == "int" and v["v"] > 1:
+                for t in (v["v"] // 2, v["v"] - 1):
+                    yield dict(c, pos=c["pos"][:i] + [dict(v, v=t)] + c["pos"][i + 1:])
+        for i, (k, v) in enumerate(c["kw"]):
+            if k == "size" and v["t"] == "int" and v["v"] > 1:
+                for t in (v["v"] // 2, v["v"] - 1):
+                    yield dict(c, kw=c["kw"][:i] + [[k, dict(v, v=t)]] + c["kw"][i + 1:])
         return
     s = c["size"]
     for t in sorted({s // 2, s - 1, s - 2, s - 4, 1, 2, 4, 8}):
@@ -1609,6 +2295,20 @@ def shrink(c):
 
 
 def neighbours(c):
+    if c["entry"] == "scan":
+        for d in shrink(c):
+            yield d
+        return
+    if c["entry"] == "pycall":
+        sc = _spec_call(c)
+        for kind, names in _names():
+            for dict_ in ("window", "wsymm"):
+                for shape in GOOD_SHAPES:
+                    yield _pc(dict_, kind, shape, 4, 0)
+                    yield _pc(dict_, kind, shape, 5, 2)
+        for d in shrink(c):
+            yield d
+        return
     if c["entry"] == "history":
         for s in c["steps"]:
             yield dict({k: v for k, v in s.items() if k != "mut"}, entry="call")
@@ -1640,8 +2340,15 @@ def classify(c, io, drv):
     ps = _problems(c, io, drv)
     spec = [p for p in ps if p[0] == "spec"]
     p = (spec or ps or [("", "none", "")])[0]
+    if c["entry"] == "scan":
+        return "%s.%s:%s" % (c["dict"], c["name"], p[1])
+    dict_ = c["dict"]
+    if c["entry"] == "pycall":
+        sc = _spec_call(c)
+        if sc is not None:
+            dict_ = "wsymm" if sc["symm"] else "window"
     kind = (drv.get("spec") or {}).get("kind") or str(c["name"])
-    return "%s.%s:%s" % (c["dict"], kind, p[1])
+    return "%s.%s:%s" % (dict_, kind, p[1])
 
 
 # =============================================================================================
@@ -1717,6 +2424,50 @@ def extra_checks(eng):
     chk("strategy count", len(window) == len({tuple(v) for _k, v in reg["window"]["items"]}) and
         len(wsymm) == len({tuple(v) for _k, v in reg["wsymm"]["items"]}),
         "impl %d/%d" % (len(window), len(wsymm)))
+    # the regenerated tables against the running module: parameter list of every generated function, dictionary links
+    try:
+        import inspect
+        tab = eng.driver.batch([{"id": ID, "entry": "tables"}])[0]["ok"]
+        bad = []
+        for row in tab["rows"]:
+            sname = row["names"][0]
+            for dn, sd in sds.items():
+                want = row["window_sig" if (dn == "window" or not row["distinct"]) else "wsymm_sig"]
+                try:
+                    ps = list(inspect.signature(sd[sname]).parameters.values())
+                except (KeyError, ValueError, TypeError) as e:
+                    bad.append("%s.%s: %r" % (dn, sname, e))
+                    continue
+                got = []
+                for q in ps:
+                    if q.kind is not q.POSITIONAL_OR_KEYWORD:
+                        got.append([q.name, "kind:" + str(q.kind)])
+                    elif q.default is q.empty:
+                        got.append([q.name, None])
+                    elif type(q.default) in (int, float):
+                        f = Fraction(repr(q.default))
+                        got.append([q.name, [f.numerator, f.denominator, type(q.default) is int]])
+                    else:
+                        got.append([q.name, "default:" + repr(q.default)])
+                if got != want:
+                    bad.append("%s.%s%s, model %s" % (dn, sname, got, want))
+        chk("signature of every generated function = regenerated table (theorem `signatures`)", not bad, "; ".join(bad)[:400])
+        bad = [l for l in tab["dict_links"] if getattr(sds.get(l[0]), l[1], None) is not sds.get(l[2])]
+        chk("dictionary links = regenerated table (theorem `dict_links_table`)", not bad and len(tab["dict_links"]) == 4, str(bad))
+    except Exception as e:
+        chk("regenerated tables readable", False, "%s: %s" % (type(e).__name__, e))
+    # the hand-written model `genStep` / `generated` is a model of THIS text of `_generate_window_strategies`
+    try:
+        import hashlib
+        read_source()
+        loop = _src.get("loop")
+        body = [n for n in loop.body if not (isinstance(n, ast.Expr) and isinstance(n.value, ast.Constant)
+                                             and isinstance(n.value.value, str))] if loop is not None else None
+        h = hashlib.sha1(ast.dump(ast.Module(body, [])).encode()).hexdigest() if body is not None else "missing"
+        chk("_generate_window_strategies is the text the hand-written model (ALV.C14.genStep) was written for", h == LOOP_AST_SHA1,
+            "sha1 of the AST %s, modelled %s: re-read the loop, update lean/ALV/Model/C14.lean and LOOP_AST_SHA1" % (h, LOOP_AST_SHA1))
+    except Exception as e:
+        chk("_generate_window_strategies readable", False, "%s: %s" % (type(e).__name__, e))
     # the translator read the same table / templates the running module uses
     try:
         entries, templates = read_source()
